@@ -46,6 +46,7 @@ type Model struct {
 	sendViol []common.Violation
 	sends    map[string]int
 	counters map[string]int
+	injected  bool // "then-second": the second item has been proposed at the origin
 	preBag    int
 	advDone   map[int]bool
 	lastFirst bool // the last delivery handed its item to that node for the first time
@@ -104,6 +105,7 @@ func (m *Model) Init() {
 	m.sends = map[string]int{}
 	m.items = nil
 	m.advDone = map[int]bool{}
+	m.injected = false
 	m.orphanAdmitted = map[string]map[[32]byte]bool{}
 	m.expired = map[string]bool{}
 	m.evCount = 0
@@ -126,7 +128,7 @@ func (m *Model) Init() {
 		vsched.Settle()
 	}
 	switch m.Cfg.Items {
-	case "vertex", "two-vertices":
+	case "vertex", "two-vertices", "then-second":
 		m.itemKind = "vertex"
 		t1 := world.MakeTx(R, A.Addr, "g1", nil, spice.Melange{Currency: 1}, 9101)
 		m.W.Ref.LabelTx("g1", t1)
@@ -228,7 +230,11 @@ func (m *Model) Enabled() []string {
 	for _, msg := range m.Net.Bag {
 		if msg.To == m.Cfg.Adversary && m.Cfg.Adversary != "" {
 			if msg.Delivered == 0 {
-				for _, mask := range m.Cfg.Masks {
+				masks := m.Cfg.Masks
+				if m.Cfg.Items == "then-second" && len(m.items) > 0 && msg.Item() == m.items[0] && !m.injected {
+					masks = []int{0} // first item: the adversary relays honestly, it attacks the second one
+				}
+				for _, mask := range masks {
 					out = append(out, fmt.Sprintf("A:%d:%d", msg.ID, mask))
 				}
 			}
@@ -239,6 +245,9 @@ func (m *Model) Enabled() []string {
 		} else if m.Cfg.Dup && msg.Delivered == 1 {
 			out = append(out, fmt.Sprintf("U:%d", msg.ID))
 		}
+	}
+	if m.Cfg.Items == "then-second" && !m.injected && m.quiescent() {
+		out = append(out, "I:0")
 	}
 	if m.Cfg.Expire {
 		for i, f := range m.full {
@@ -331,6 +340,32 @@ func (m *Model) apply(e string) (res string, direct [32]byte, node string) {
 			}
 		}
 		return "no-ticker", direct, ""
+	case "I":
+		// the origin seals a second, dependent item once the first one has spread
+		m.injected = true
+		origin := m.byName[m.Cfg.Origin]
+		t2 := world.MakeTx(world.Cast("R"), world.Cast("B").Addr, "g2", nil, spice.Melange{Currency: 1}, 9102)
+		m.W.Ref.LabelTx("g2", t2)
+		pt, err := transformers.TrxToProtoTrx(t2)
+		if err != nil {
+			panic(err)
+		}
+		if _, err := origin.Notary.Propose(context.Background(), pt); err != nil {
+			return "error", direct, ""
+		}
+		vsched.Settle()
+		s := origin.Book.VerifSnapshot()
+		for _, v := range s.Vertices {
+			m.W.Ref.Learn(v)
+		}
+		for _, v := range s.Vertices {
+			if m.W.Ref.TxLabels[v.Transaction.Hash] == "g2" {
+				m.items = append(m.items, v.Hash)
+				m.seen[m.Cfg.Origin][v.Hash] = true
+				return "ok", v.Hash, m.Cfg.Origin
+			}
+		}
+		return "ok", direct, ""
 	case "F":
 		i, _ := strconv.Atoi(p[1])
 		f := m.full[i]
@@ -388,6 +423,24 @@ func (m *Model) adversary(id, mask int) {
 		if mask&32 != 0 { // Sybil key
 			sy := world.Cast("sybil")
 			gs = append(gs, sign(sy, sy.Addr, item))
+		}
+		if mask&64 != 0 { // replay: genuine entries of honest nodes, copied verbatim from messages about EARLIER items
+			seen := map[string]bool{}
+			for _, old := range m.Net.Bag {
+				oi := old.Item()
+				if oi == item {
+					continue
+				}
+				for _, g := range old.Gossipers() {
+					if g == nil || seen[g.Address] || g.Address == adv.Actor.Addr {
+						continue
+					}
+					if len(world.ValidGossipers(oi, []*protobufcompiled.Gossiper{g})) == 1 {
+						seen[g.Address] = true
+						gs = append(gs, g)
+					}
+				}
+			}
 		}
 		out := &world.Msg{From: m.Cfg.Adversary, To: nb}
 		if msg.Vrx != nil {
@@ -457,7 +510,7 @@ func (m *Model) Key() string {
 		fb = append(fb, k)
 	}
 	sort.Strings(fb)
-	k := strings.Join(parts, " ") + " BAG[" + strings.Join(bag, " ") + "] EXP[" + strings.Join(exp, ",") + "] FWD[" + strings.Join(fb, ",") + "]"
+	k := strings.Join(parts, " ") + " BAG[" + strings.Join(bag, " ") + "] EXP[" + strings.Join(exp, ",") + "] FWD[" + strings.Join(fb, ",") + "]" + fmt.Sprintf(" INJ=%v", m.injected)
 	h := sha256.Sum256([]byte(k))
 	return hex.EncodeToString(h[:12])
 }
